@@ -486,3 +486,10 @@ def r10(ctx: Ctx) -> None:
     from .c02 import order_eq_rule
 
     order_eq_rule(ctx)
+
+
+@rule("C04.H1", "mechanism shared with C06: the `now` that expiry is measured against is the market's clock (both books are set to it at every step)", "T4 + T7 (same rule as C06.R6)", floor=6)
+def h1(ctx: Ctx) -> None:
+    from .c06 import r6 as book_clock_rule
+
+    book_clock_rule(ctx)
